@@ -87,4 +87,18 @@ theorem subtype_form {K : T → Dist T} (hK : Inv (space c D) (pOneT dt c) K) (y
   rw [sum_piD_eq_lsum (fun x => E (K x) (fun z => if z = y then 1 else 0)), piD_eq]
   exact Inv.target' hK (space_nodup c D) y
 
+/-- a list sum over a duplicate-free list is the sum over its subtype -/
+theorem lsum_eq_sum_St (S : List T) (hS : S.Nodup) (F : T → ℚ) : lsum S F = ∑ x : St S, F x.1 := by
+  rw [← sum_indicator_lsum S F S hS (fun a ha => ha)]
+  apply Finset.sum_congr rfl
+  intro s _
+  rw [if_pos s.2]
+
+/-- target form on the finite type of the complete trees on `D` -/
+theorem target_form {K : T → Dist T} (hK : Inv (space c D) (pOneT dt c) K) (y : St (space c D)) :
+    ∑ x : St (space c D), pOneT dt c x.1 * E (K x.1) (fun z => if z = y.1 then 1 else 0) = pOneT dt c y.1 := by
+  rw [← lsum_eq_sum_St (space c D) (space_nodup c D)
+    (fun x => pOneT dt c x * E (K x) (fun z => if z = y.1 then 1 else 0))]
+  exact hK.target (space_nodup c D) y.2
+
 end PhyModel.Sweep
